@@ -2123,7 +2123,14 @@ func ruleGCTerminates(c *Ctx) {
 		for _, k := range []int64{kNone, kDelete, kKeep, kUnsend} {
 			kk := k
 			sp := &Spec{InlineHelpers: true}
+			sp.Inline = func(t *Tracer, fr *Frame, c ssa.CallInstruction, f *ssa.Function) bool {
+				return p.isRepoFn(f) && isSmallPredicate(f)
+			}
 			sp.Eval = func(t *Tracer, fr *Frame, cond ssa.Value) (bool, bool) {
+				// the test may be the answer of a predicate helper (`r.isDecided()`): what it returned on this path
+				if rc := t.Resolve(fr, cond); rc.V != nil && rc.V != cond {
+					cond, fr = rc.V, rc.Fr
+				}
 				x, op, c2, ok := cmpConst(cond)
 				if !ok {
 					return false, false
